@@ -6,8 +6,10 @@ import (
 	"verif/internal/gen"
 )
 
-// Buffer histories H1..H7 of DESIGN §2.3.
-var histNames = []string{"H1-empty", "H2-random-content", "H3-earlier-frames", "H4-partly-consumed", "H5-drained-reused", "H6-garbage-in-spare-capacity", "H7-cap-equals-len"}
+// Buffer histories H1..H8 of DESIGN §2.3.
+const nHist = 9
+
+var histNames = []string{"H1-empty", "H2-random-content", "H3-earlier-frames", "H4-partly-consumed", "H5-drained-reused", "H6-garbage-in-spare-capacity", "H7-cap-equals-len", "H8-full-array-mostly-consumed", "H9-capacity-ends-inside-the-last-bytes-of-this-encoding"}
 
 // mkHistory builds a buffer with the given history.  earlier is a valid encoding used for H3
 // (may be nil, then random bytes are used); room is the spare capacity left by H7.  It returns the buffer and a copy of its unread bytes.
@@ -49,6 +51,22 @@ func mkHistory(h int, r *gen.Rng, earlier []byte, room int) (*bytes.Buffer, []by
 		n := 1 + r.Intn(64)
 		b := r.Bytes(n + room)
 		buf = bytes.NewBuffer(b[: n : n+room])
+	case 8:
+		// `room` spare bytes where the caller passes (length of this encoding - 1..4): everything fits except the
+		// last few bytes, so the very last write (a frame trailer) reallocates the array
+		n := r.Intn(48)
+		if room < 0 {
+			room = 0
+		}
+		b := r.Bytes(n + room)
+		buf = bytes.NewBuffer(b[: n : n+room])
+	case 7:
+		// a small backing array that is completely full and more than half consumed: the next write makes
+		// bytes.Buffer SLIDE the unread bytes to the front of the same array instead of reallocating
+		n := 32 + r.Intn(97)
+		b := r.Bytes(n)
+		buf = bytes.NewBuffer(b[:n:n])
+		buf.Next(n/2 + 1 + r.Intn(n/2-2))
 	}
 	return buf, append([]byte(nil), buf.Bytes()...)
 }
